@@ -82,7 +82,7 @@ func (c *Ctx) c11Boundary() {
 			n++
 			var D *pw.Val
 			for _, e2 := range p.Events {
-				if e2.Kind == pw.EvFieldRead && e2.Field != nil && e2.Field.Name() == "DeleteExpiredAfter" {
+				if e2.Kind == pw.EvFieldRead && e2.Field != nil && fname(e2.Field) == "DeleteExpiredAfter" {
 					D = e2.Value
 				}
 			}
@@ -162,7 +162,7 @@ func (c *Ctx) c11DeleteExpired(b BK) {
 			var E *pw.Val
 			deleted := false
 			for _, ev := range g.events {
-				if ev.Kind == pw.EvFieldRead && ev.Field != nil && ev.Field.Name() == "E" {
+				if ev.Kind == pw.EvFieldRead && ev.Field != nil && fname(ev.Field) == "E" {
 					base := ev.Recv
 					for base != nil && base.Kind == pw.KAssert {
 						base = base.Src
@@ -285,7 +285,7 @@ func (c *Ctx) c11Wiring() {
 		installed := triFalse
 		seen := 0
 		for _, ev := range p.Events {
-			if ev.Kind == pw.EvFieldRead && ev.Field != nil && (ev.Field.Name() == "DeleteExpired" || ev.Field.Name() == "Evict") {
+			if ev.Kind == pw.EvFieldRead && ev.Field != nil && (fname(ev.Field) == "DeleteExpired" || fname(ev.Field) == "Evict") {
 				seen++
 				switch nilTri(p, ev.Value) {
 				case triFalse:
@@ -337,7 +337,7 @@ func (c *Ctx) c11ScanSkip() {
 		var cb, ttl, cnt *pw.Val
 		for _, ev := range p.Events {
 			if ev.Kind == pw.EvFieldRead && ev.Field != nil {
-				switch ev.Field.Name() {
+				switch fname(ev.Field) {
 				case "DeleteExpired":
 					if cb == nil {
 						cb = ev.Value
@@ -346,7 +346,7 @@ func (c *Ctx) c11ScanSkip() {
 					ttl = ev.Value
 				}
 			}
-			if ev.Kind == pw.EvCall && ev.Role == "Std:atomic.LoadInt64" && len(ev.Args) == 1 && ev.Args[0].Field != nil && ev.Args[0].Field.Name() == "expirationsSet" {
+			if ev.Kind == pw.EvCall && ev.Role == "Std:atomic.LoadInt64" && len(ev.Args) == 1 && ev.Args[0].Field != nil && fname(ev.Args[0].Field) == "expirationsSet" {
 				cnt = ev.Results[0]
 			}
 		}
@@ -383,10 +383,10 @@ func (c *Ctx) c11ScanSkip() {
 		var ttl *pw.Val
 		counted := false
 		for _, ev := range p.Events {
-			if ev.Kind == pw.EvFieldRead && ev.Field != nil && ev.Field.Name() == "TimeToLive" {
+			if ev.Kind == pw.EvFieldRead && ev.Field != nil && fname(ev.Field) == "TimeToLive" {
 				ttl = ev.Value
 			}
-			if ev.Kind == pw.EvCall && ev.Role == "Std:atomic.AddInt64" && len(ev.Args) == 2 && ev.Args[0].Field != nil && ev.Args[0].Field.Name() == "expirationsSet" {
+			if ev.Kind == pw.EvCall && ev.Role == "Std:atomic.AddInt64" && len(ev.Args) == 2 && ev.Args[0].Field != nil && fname(ev.Args[0].Field) == "expirationsSet" {
 				if one, ok := poly.Of(ev.Args[1], nil).IsConst(); ok && one.Sign() > 0 {
 					counted = true
 				}
